@@ -91,3 +91,42 @@ func VH_C16_Render() {
 	got2, gerr2 := e2.Render("t", ctx)
 	symAssert((gerr2 == nil) == (werr == nil) && got2 == want, "same-output-again")
 }
+
+// VH_C16_Sequence: the bytes returned for one template stay valid while other templates are
+// serialised, deserialised and loaded: serialise A, serialise B (and optionally compile/serialise on an
+// engine in between), then deserialise A's bytes and B's bytes.
+func VH_C16_Sequence() {
+	nf := symParam("F", 2)
+	a := &CompiledTemplate{Name: "A" + symString(symChoice(nf+1)), Source: symString(symChoice(nf + 1)), LastModified: int64(symInt()), CompileTime: 1, AST: []byte(symString(symChoice(nf + 1)))}
+	b := &CompiledTemplate{Name: "B" + symString(symChoice(nf+1)), Source: "longer source than A " + symString(1), LastModified: 2, CompileTime: int64(symInt())}
+	da, ea := SerializeCompiledTemplate(a)
+	keep := string(da)
+	mid := symChoice(3)
+	var db []byte
+	var eb error
+	switch mid {
+	case 0:
+		db, eb = SerializeCompiledTemplate(b)
+	case 1:
+		e := New()
+		e.RegisterString("t", "x{{ y }}")
+		c, _ := e.CompileTemplate("t")
+		SerializeCompiledTemplate(c)
+		db, eb = SerializeCompiledTemplate(b)
+	case 2:
+		db, eb = SerializeCompiledTemplate(b)
+		DeserializeCompiledTemplate(db)
+		SerializeCompiledTemplate(a)
+	}
+	symCover("serialised")
+	symAssert(ea == nil && eb == nil, "serializes")
+	symAssert(string(da) == keep, "earlier-bytes-unchanged-by-later-calls")
+	ra, era := DeserializeCompiledTemplate(da)
+	rb, erb := DeserializeCompiledTemplate(db)
+	symAssert(era == nil && erb == nil, "deserializes")
+	if era != nil || erb != nil {
+		return
+	}
+	symAssert(ra.Name == a.Name && ra.Source == a.Source && ra.LastModified == a.LastModified && string(ra.AST) == string(a.AST), "first-template-intact")
+	symAssert(rb.Name == b.Name && rb.Source == b.Source && rb.CompileTime == b.CompileTime, "second-template-intact")
+}
